@@ -646,16 +646,42 @@ func (ob *Obligation) Solve(timeoutS int, keepScript bool) *SolveResult {
 	}
 	ctx, cancel := context.WithCancel(context.Background())
 	defer cancel()
-	ch := make(chan ans, len(solvers))
+	nRun := len(solvers)
+	// Recursive specification functions can send a solver into endless unfolding. The same query with those
+	// functions left uninterpreted has fewer hypotheses, so an `unsat` for it is an `unsat` for the real query:
+	// it is raced alongside (only its unsat answers count).
+	var abstractFile string
+	if abs, ok := abstractRecFuns(script); ok && !ob.Cover {
+		fileMu.Lock()
+		fileSeq++
+		abstractFile = filepath.Join(scratch(), fmt.Sprintf("q%d.smt2", fileSeq))
+		fileMu.Unlock()
+		if err := os.WriteFile(abstractFile, []byte(abs), 0o644); err == nil {
+			defer os.Remove(abstractFile)
+		} else {
+			abstractFile = ""
+		}
+	}
+	ch := make(chan ans, 2*len(solvers))
 	for _, sp := range solvers {
 		sp := sp
 		go func() {
 			s, o, _ := runSolver(ctx, sp, fn, timeoutS)
 			ch <- ans{s, o, sp.name}
 		}()
+		if abstractFile != "" && sp.name != "z3-4.8.12" {
+			nRun++
+			go func() {
+				s, o, _ := runSolver(ctx, sp, abstractFile, timeoutS)
+				if s != "unsat" {
+					s = "unknown"
+				}
+				ch <- ans{s, o, sp.name + "(rec functions uninterpreted)"}
+			}()
+		}
 	}
 	final := ans{st: "unknown"}
-	for i := 0; i < len(solvers); i++ {
+	for i := 0; i < nRun; i++ {
 		a := <-ch
 		res.Tried = append(res.Tried, a.name+":"+a.st)
 		if a.st == "unsat" || a.st == "sat" {
@@ -676,6 +702,81 @@ func (ob *Obligation) Solve(timeoutS int, keepScript bool) *SolveResult {
 		res.Model = ob.ModelValues(final.out)
 	}
 	return res
+}
+
+// abstractRecFuns rewrites the (define-funs-rec ...) line of a script into declare-funs.
+func abstractRecFuns(script string) (string, bool) {
+	const kw = "(define-funs-rec "
+	k := strings.Index(script, kw)
+	if k < 0 {
+		return "", false
+	}
+	end := strings.Index(script[k:], "\n")
+	if end < 0 {
+		return "", false
+	}
+	line := script[k : k+end]
+	// line = (define-funs-rec (DECL...) (BODY...)); split the first list
+	items := sexprItems(line[len(kw):])
+	if len(items) < 1 {
+		return "", false
+	}
+	decls := sexprItems(items[0][1 : len(items[0])-1])
+	var sb strings.Builder
+	for _, d := range decls {
+		parts := sexprItems(d[1 : len(d)-1]) // name (params) Res
+		if len(parts) != 3 {
+			return "", false
+		}
+		var sorts []string
+		for _, p := range sexprItems(parts[1][1 : len(parts[1])-1]) {
+			ps := sexprItems(p[1 : len(p)-1])
+			if len(ps) != 2 {
+				return "", false
+			}
+			sorts = append(sorts, ps[1])
+		}
+		fmt.Fprintf(&sb, "(declare-fun %s (%s) %s)\n", parts[0], strings.Join(sorts, " "), parts[2])
+	}
+	return script[:k] + strings.TrimSuffix(sb.String(), "\n") + script[k+end:], true
+}
+
+// sexprItems splits the top-level items of a sequence of s-expressions.
+func sexprItems(s string) []string {
+	var out []string
+	depth, start := 0, -1
+	for i := 0; i < len(s); i++ {
+		c := s[i]
+		switch {
+		case c == '(':
+			if depth == 0 && start < 0 {
+				start = i
+			}
+			depth++
+		case c == ')':
+			depth--
+			if depth == 0 && start >= 0 {
+				out = append(out, s[start:i+1])
+				start = -1
+			}
+			if depth < 0 {
+				return out
+			}
+		case c == ' ' || c == '\t':
+			if depth == 0 && start >= 0 {
+				out = append(out, s[start:i])
+				start = -1
+			}
+		default:
+			if depth == 0 && start < 0 {
+				start = i
+			}
+		}
+	}
+	if start >= 0 && depth == 0 {
+		out = append(out, s[start:])
+	}
+	return out
 }
 
 var defFunRe = regexp.MustCompile(`\(define-fun\s+(\S+)\s+\(\)\s+(\([^()]*\)|\S+)\s+`)
